@@ -104,8 +104,16 @@ status_t Thread :: StartInternalThread()
 {
    if (IsInternalThreadRunning()) return B_ALREADY_RUNNING;
 
-   const bool needsInitialSignal = (_threadData[MESSAGE_THREAD_INTERNAL]._messages.HasItems());
    MRETURN_ON_ERROR(StartInternalThreadAux());
+
+   // We look at the queue only now that the signalling sockets exist:  a Message that some thread queued any earlier
+   // than that (including while we were busy above) could not be signalled by its sender.
+   bool needsInitialSignal;
+   {
+      ThreadSpecificData & tsd = _threadData[MESSAGE_THREAD_INTERNAL];
+      DECLARE_MUTEXGUARD(tsd._queueLock);
+      needsInitialSignal = tsd._messages.HasItems();
+   }
    if (needsInitialSignal) SignalInternalThread();  // make sure he gets his already-queued messages!
    return B_NO_ERROR;
 }
